@@ -10,12 +10,27 @@
    Round 4 line forms (harness/cmd/lcslistrace/round4.go): "P <prelude> <line>" -- calls made before
    the case, without effect on the stateless model: the prelude is dropped;  "V <mode> <lo1> <hi1>
    <lo2> <hi2> <c> <arr>" -- LCS of two views of one array: the model and the property see the
-   two value lists;  modes g (strings by rank) and j (uint64 by rank): codes in value order. *)
+   two value lists;  modes g (strings by rank) and j (uint64 by rank): codes in value order.
+
+   Round 5 line forms (harness/cmd/lcslistrace/round5.go): "S ..." / "T ..." -- the L / V line once
+   more, for inputs too long for the extracted model (its lists are indexed by position: the cost
+   grows with the cube of the length): above 65 x 130 elements such a line is NOT replayed on the
+   model -- [eval] hands back the implementation's own record (read from the trace files before the
+   main loop starts), so that the generic loop has nothing to compare -- and [spec] alone judges it,
+   with the reference table written on arrays.  "G <I|N> <mode> <n> <recipe>" -- LIS / LNDS of an
+   input made by a recipe (up to 2^16 + 1 elements), the record bounded (length, digest, positions
+   as runs): replayed on the model up to 200 elements, judged by [spec] alone above, the optimum
+   from an O(n log n) reference that is compared with the quadratic ones on every G line of at most
+   150 elements.  "P ...@j:call... <line>": a call made from inside the case's callback; dropped
+   like every prelude.  Typed modes y w u (I / N) and y z u a r (L): codes; u is float32 with both
+   zeros (codes 3, 4: equal, tie) and NaN (code 0: == nothing, first under cmp.Compare). *)
 
 let key e = e / 100
 
+let f32_class c = if c >= 4 then c - 1 else c     (* mode u: -0 (3) and +0 (4) are one value *)
 let eq_of = function
-  | "e" | "g" -> (fun (a : int) b -> a = b)
+  | "e" | "g" | "y" | "z" | "a" | "r" -> (fun (a : int) b -> a = b)
+  | "u" -> (fun a b -> a <> 0 && b <> 0 && f32_class a = f32_class b)
   | "k" -> (fun a b -> key a = key b)
   | "c" -> (fun a b -> key a / 2 = key b / 2)
   | "m" -> (fun a b -> key a mod 2 = key b mod 2)
@@ -24,11 +39,12 @@ let eq_of = function
   | m -> failwith ("bad eq mode " ^ m)
 
 (* is the test an equivalence (then the symmetric statement of the property applies too)? *)
-let is_equivalence = function "e" | "g" | "k" | "c" | "m" -> true | _ -> false
+let is_equivalence = function "e" | "g" | "k" | "c" | "m" | "y" | "z" | "a" | "r" -> true | _ -> false
 
 let cmp_int mode : int -> int -> int =
   match mode with
-    | "n" | "b" | "h" | "f" | "s" | "g" | "j" -> (fun (a : int) b -> compare a b)   (* typed modes: codes in value order *)
+    | "n" | "b" | "h" | "f" | "s" | "g" | "j" | "y" | "w" -> (fun (a : int) b -> compare a b)   (* typed modes: codes in value order *)
+    | "u" -> (fun a b -> compare (f32_class a) (f32_class b))
     | "k" -> (fun a b -> compare (key a) (key b))
     | "r" -> (fun a b -> compare (key b) (key a))
     | "d" -> (fun a b -> key a - key b)
@@ -56,13 +72,17 @@ let lis_len_direct c strict (vs : int list) =
 let lcs_len_direct eq (l : int list) (r : int list) =
   let a = Array.of_list l and b = Array.of_list r in
   let m = Array.length a and n = Array.length b in
-  let t = Array.make_matrix (m + 1) (n + 1) 0 in
+  (* the textbook table, row by row (only the previous row is ever read) *)
+  let p = ref (Array.make (n + 1) 0) and c = ref (Array.make (n + 1) 0) in
   for i = 1 to m do
+    let t = !p in p := !c; c := t;
+    let p = !p and c = !c in
+    c.(0) <- 0;
     for j = 1 to n do
-      t.(i).(j) <- if eq a.(i-1) b.(j-1) then t.(i-1).(j-1) + 1 else max t.(i-1).(j) t.(i).(j-1)
+      c.(j) <- if eq a.(i-1) b.(j-1) then p.(j-1) + 1 else max p.(j) c.(j-1)
     done
   done;
-  t.(m).(n)
+  (!c).(n)
 exception Disagree
 let lis_opt mode strict vs =
   let n = List.length vs in
@@ -76,6 +96,84 @@ let lcs_opt eq l r =
   if n > 100 then direct ()
   else if n > 60 then extracted ()
   else (let d = direct () and e = extracted () in if d <> e then raise Disagree; e)
+
+(* ---- round 5 ---- *)
+
+(* the records of the lines that are not replayed on the model: input -> the implementation's output *)
+let echo : (string, string) Hashtbl.t = Hashtbl.create 4096
+let () =
+  Array.iteri (fun i f ->
+    if i > 0 && String.length f > 0 && f.[0] <> '-' && Sys.file_exists f && not (Sys.is_directory f) then begin
+      let ic = open_in f in
+      (try while true do
+        let line = input_line ic in
+        if String.length line > 2 && (line.[0] = 'S' || line.[0] = 'T' || line.[0] = 'G') && line.[1] = ' ' then begin
+          let (inp, out) = split_line line in Hashtbl.replace echo inp out
+        end
+      done with End_of_file -> ());
+      close_in ic
+    end) Sys.argv
+let echo_of inp = match Hashtbl.find_opt echo inp with Some o -> o | None -> "NOT-REPLAYED"
+let model_fits la lb = min la lb <= 65 && max la lb <= 130
+
+let fnv64 s =
+  let h = ref 0xcbf29ce484222325L in
+  String.iter (fun c -> h := Int64.mul (Int64.logxor !h (Int64.of_int (Char.code c))) 0x100000001b3L) s;
+  Printf.sprintf "%Lx" !h
+
+exception Bad_recipe
+let recipe_elems n recipe =
+  if String.length recipe <> 2 || n < 0 || n > 131072 then raise Bad_recipe;
+  let ks = Array.make n 0 in
+  let x = ref 12345 in
+  for i = 0 to n - 1 do
+    ks.(i) <- (match recipe.[0] with
+      | 'a' -> i + 1 | 'd' -> n - i | 'p' -> 5 | 's' -> i / 256 + 1 | 'w' -> i mod 256 + 1
+      | 'x' -> x := (!x * 1103515245 + 12345) land 0x7fffffff; (!x lsr 8) mod n + 1
+      | 't' -> if i mod 2 = 0 then i / 2 + 1 else n + i / 2 + 1
+      | _ -> raise Bad_recipe)
+  done;
+  if n > 0 then (match recipe.[1] with
+    | '-' -> () | 'h' -> ks.(n-1) <- 2 * n + 10 | 'l' -> ks.(n-1) <- 0 | 'm' -> ks.(n-1) <- n / 2 + 1
+    | _ -> raise Bad_recipe);
+  Array.mapi (fun i k -> k * 100 + i mod 100) ks
+
+(* the optimum in O(n log n): the smallest last element of a chain of every length (patience) *)
+let lis_len_fast c strict (a : int array) =
+  let n = Array.length a in
+  let tails = Array.make (n + 1) 0 and len = ref 0 in
+  for i = 0 to n - 1 do
+    let x = a.(i) in
+    let lo = ref 0 and hi = ref !len in
+    while !lo < !hi do
+      let mid = (!lo + !hi) / 2 in
+      let r = c tails.(mid) x in
+      if (if strict then r < 0 else r <= 0) then lo := mid + 1 else hi := mid
+    done;
+    tails.(!lo) <- x;
+    if !lo = !len then incr len
+  done;
+  !len
+
+let runs_of (pos : int list) =
+  if pos = [] then "." else begin
+    let b = Buffer.create 64 in
+    let flush lo hi = (if Buffer.length b > 0 then Buffer.add_char b ',');
+      Buffer.add_string b (string_of_int lo); if hi > lo then (Buffer.add_char b '-'; Buffer.add_string b (string_of_int hi)) in
+    let rec go lo hi = function
+      | [] -> flush lo hi
+      | p :: r -> if p = hi + 1 then go lo p r else (flush lo hi; go p p r) in
+    (match pos with p :: r -> go p p r | [] -> ());
+    Buffer.contents b
+  end
+let positions_of runs =
+  if runs = "." then [] else
+  List.concat_map (fun r ->
+    match String.split_on_char '-' r with
+    | [p] -> [int_of_string p]
+    | [lo; hi] -> let lo = int_of_string lo and hi = int_of_string hi in
+      if hi < lo || hi - lo > 200000 then failwith "bad run" else List.init (hi - lo + 1) (fun i -> lo + i)
+    | _ -> failwith "bad run") (String.split_on_char ',' runs)
 
 (* optional window field w<pre>,<spare> *)
 let spare_of = function
@@ -106,13 +204,35 @@ let lcs_line mode a b =
 let rec eval inp =
   match words inp with
   | "P" :: _ :: rest -> eval (String.concat " " rest)
-  | ["V"; mode; lo1; hi1; lo2; hi2; _; arr] ->
-    (match views lo1 hi1 lo2 hi2 arr with Some (a, b) -> lcs_line mode a b | None -> "?")
-  | "L" :: mode :: a :: b :: _ ->
+  | [("V" | "T") as kind; mode; lo1; hi1; lo2; hi2; _; arr] ->
+    (match views lo1 hi1 lo2 hi2 arr with
+     | Some (a, b) -> if kind = "T" && not (model_fits (List.length a) (List.length b)) then echo_of inp else lcs_line mode a b
+     | None -> "?")
+  | (("L" | "S") as kind) :: mode :: a :: b :: _ ->
     let a = ints_of a and b = ints_of b in
+    if kind = "S" && not (model_fits (List.length a) (List.length b)) then echo_of inp else
     (match M.lcs_func (eq_of mode) a b with
      | Some s -> (if M.lcs_is_nil a b then "z " else "s ") ^ str_ints s ^ " m0 a0"
      | None -> "NONE")
+  | "G" :: (("I" | "N") as f) :: mode :: n :: recipe :: w ->
+    (match int_of_string_opt n with
+     | Some n when n <= 200 ->
+       (match (try Some (Array.to_list (recipe_elems n recipe)) with Bad_recipe -> None) with
+        | None -> "?"
+        | Some vs ->
+          let r = if f = "I" then M.lis_func (cmp_of mode) vs else M.lnds_func (cmp_of mode) vs in
+          let alias = if vs = [] && spare_of w > 0 then " a1" else " a0" in
+          (match r with
+           | None -> "NONE"
+           | Some s ->
+             (* the positions a greedy left-to-right match gives the elements *)
+             let rec place i vs s = match s, vs with
+               | [], _ -> []
+               | _, [] -> [-1]
+               | x :: s', y :: vs' -> if (x : int) = y then i :: place (i + 1) vs' s' else place (i + 1) vs' s in
+             Printf.sprintf "%d:%s:%s m0%s" (List.length s) (fnv64 (str_ints s)) (runs_of (place 0 vs s)) alias))
+     | Some _ -> echo_of inp
+     | None -> "?")
   | (("I" | "N") as f) :: mode :: vs :: w ->
     let vs = ints_of vs in
     let r = if f = "I" then M.lis_func (cmp_of mode) vs else M.lnds_func (cmp_of mode) vs in
@@ -133,7 +253,39 @@ let rec spec prop inp out =
   if prop <> "C12" then None else
   match words inp with
   | "P" :: _ :: rest -> spec prop (String.concat " " rest) out
-  | ["V"; mode; lo1; hi1; lo2; hi2; _; arr] ->
+  | "S" :: rest -> spec prop (String.concat " " ("L" :: rest)) out
+  | "G" :: (("I" | "N") as f) :: mode :: n :: recipe :: _ ->
+    let strict = (f = "I") in
+    let name = if strict then "LIS" else "LNDS" in
+    (match int_of_string_opt n, words out with
+     | None, _ -> None
+     | Some n, _ when (try ignore (recipe_elems n recipe); false with Bad_recipe -> true) -> None
+     | Some _, ["?"] -> Some "an input the recipe describes was rejected"
+     | Some n, [r; m; _al] ->
+       let a = recipe_elems n recipe in
+       if String.length r >= 7 && String.sub r 0 7 = "nomatch" then Some "result is not a subsequence of the input"
+       else if m <> "m0" then Some (name ^ " modified its input slice (or a cell of its backing array)")
+       else (match String.split_on_char ':' r with
+         | [len; digest; runs] ->
+           (match (try Some (positions_of runs) with _ -> None), int_of_string_opt len with
+            | Some pos, Some len ->
+              let rec increasing prev = function [] -> true | p :: r -> p > prev && p < n && increasing p r in
+              if not (increasing (-1) pos) then Some "the positions of the result in the input do not increase"
+              else if List.length pos <> len then Some "unexpected output (length and positions disagree)"
+              else begin
+                let s = List.map (fun p -> a.(p)) pos in
+                if fnv64 (str_ints s) <> digest then Some "the elements of the result are not those of the input at the positions it was matched to"
+                else if not (M.ordered_b (cmp_of mode) strict s) then Some (if strict then "result is not strictly increasing" else "result is not non-decreasing")
+                else begin
+                  let opt = lis_len_fast (cmp_int mode) strict a in
+                  if n <= 150 && opt <> lis_opt mode strict (Array.to_list a) then raise Disagree;
+                  if len <> opt then Some (Printf.sprintf "length %d, reference optimum %d" len opt) else None
+                end
+              end
+            | _ -> Some ("unexpected output " ^ (if String.length out > 200 then String.sub out 0 200 else out)))
+         | _ -> Some ("unexpected output " ^ (if String.length out > 200 then String.sub out 0 200 else out)))
+     | _ -> Some ("unexpected output " ^ (if String.length out > 200 then String.sub out 0 200 else out)))
+  | [("V" | "T"); mode; lo1; hi1; lo2; hi2; _; arr] ->
     (match views lo1 hi1 lo2 hi2 arr with
      | Some (a, b) -> if out = "?" then Some "bounds that fit the array were rejected" else spec prop (String.concat " " ["L"; mode; str_ints a; str_ints b]) out
      | None -> None)
